@@ -187,6 +187,112 @@ def applyMNT (k : Kind) (p : Par α) (mean trend raw : α) : Option α :=
 def removeTNM (k : Kind) (p : Par α) (mean trend v : α) : Option α :=
   (normalize k p (v - trend)).map (· - mean)
 
+/-! ### `Normalizer.__init__(data, **parameter)` and `Normalizer.fit(data, skip, **kwargs)`: parameter bookkeeping
+
+   The optimiser (`scipy.optimize.minimize_scalar` / `minimize`) is a parameter of the model: all that `fit`
+   can observe of it is the sequence of points at which it evaluates the objective `_neg_kllf` (every
+   evaluation writes the trial values into the object) and the `x` of the result it returns (`OptRun`).
+   Parameter names are arbitrary strings (`default_parameter` of a user-defined subclass may hold any). -/
+
+/-- the parameter attributes of a normalizer object: `getattr(self, name)` -/
+abbrev Attrs (α : Type) := String → α
+
+/-- `setattr(self, n, v)` -/
+def setAttr (s : Attrs α) (n : String) (v : α) : Attrs α := fun m => if m = n then v else s m
+
+/-- `for name, val in zip(names, np.atleast_1d(x)): setattr(self, name, val)` -/
+def writeBack (s : Attrs α) (names : List String) (x : List α) : Attrs α :=
+  (names.zip x).foldl (fun s nv => setAttr s nv.1 nv.2) s
+
+def insertName (n : String) : List String → List String
+  | [] => [n]
+  | m :: ms => if m < n then m :: insertName n ms else n :: m :: ms
+
+/-- `sorted(self.default_parameter)` (dictionary keys: pairwise distinct) -/
+def sortNames (l : List String) : List String := l.foldr insertName []
+
+/-- `[name for name in all_names if name not in skip]` -/
+def paraNames (all skip : List String) : List String := all.filter fun n => !skip.contains n
+
+/-- `Normalizer.__init__` before fitting: every default parameter is set to the given value if one was given
+    by name, else to its default; keyword arguments that are no default parameter are ignored -/
+def initAttrs (defaults given : List (String × α)) : Attrs α :=
+  defaults.foldl (fun s kv => setAttr s kv.1 ((given.lookup kv.1).getD kv.2)) (fun _ => ((0:Nat):α))
+
+/-- one run of the optimiser as seen by `fit`: the trial points handed to the objective, in order, and `out.x` -/
+structure OptRun (α : Type) where
+  trials : List (List α)
+  x : List α
+
+/-- the object state at every evaluation of `_neg_kllf` -/
+def seenStates (s : Attrs α) (free : List String) : List (List α) → List (Attrs α)
+  | [] => []
+  | t :: ts => writeBack s free t :: seenStates (writeBack s free t) free ts
+
+/-- the object state after all evaluations of `_neg_kllf` -/
+def afterTrials (s : Attrs α) (free : List String) (trials : List (List α)) : Attrs α :=
+  trials.foldl (fun s t => writeBack s free t) s
+
+structure FitRes (α : Type) where
+  /-- parameters of the object after the call -/
+  attrs : Attrs α
+  /-- the returned dictionary (insertion order) -/
+  ret : List (String × α)
+  /-- the "no parameters!" warning -/
+  warned : Bool
+  /-- 0: optimiser not called, 1: `minimize_scalar`, 2: `minimize` -/
+  route : Nat
+  /-- `bracket` received by `minimize_scalar` (`kwargs.setdefault("bracket", (-2, 2))`) -/
+  bracket : Option (α × α)
+  /-- `x0` received by `minimize` (`kwargs.setdefault("x0", current values of the fitted parameters)`) -/
+  x0 : Option (List α)
+  /-- object state at each objective evaluation -/
+  seen : List (Attrs α)
+
+/-- `Normalizer.fit`: `defaults` are the keys of `default_parameter`, `s` the object's parameters, `skip` the
+    names not to fit, `userBracket` / `userX0` the keyword arguments given by the caller (if any) -/
+def fit (defaults : List String) (s : Attrs α) (skip : List String)
+    (userBracket : Option (α × α)) (userX0 : Option (List α)) (run : OptRun α) : FitRes α :=
+  let all := sortNames defaults
+  let free := paraNames all skip
+  if free.isEmpty then
+    { attrs := s, ret := [], warned := true, route := 0, bracket := none, x0 := none, seen := [] }
+  else
+    let s2 := writeBack (afterTrials s free run.trials) free run.x
+    { attrs := s2
+      ret := all.map fun n => (n, s2 n)
+      warned := false
+      route := if free.length = 1 then 1 else 2
+      bracket := if free.length = 1 then some (userBracket.getD (-((2:Nat):α), ((2:Nat):α))) else none
+      x0 := if free.length = 1 then none else some (userX0.getD (free.map s))
+      seen := seenStates s free run.trials }
+
+/-- an optimiser: from the objective and the start vector to what it does -/
+abbrev Optimiser (α : Type) := (List α → α) → List α → OptRun α
+
+/-- the objective handed to the optimiser, for an arbitrary function `J` of the object's parameters
+    (`_neg_kllf`: write the trial values into the object, evaluate).  As a function of the trial vector alone
+    this is what the optimiser sees when it hands over full-length vectors, as scipy does. -/
+def objective (J : Attrs α → α) (s : Attrs α) (free : List String) (t : List α) : α := J (writeBack s free t)
+
+/-- `fit` with the optimiser applied to the objective -/
+def fitWith (defaults : List String) (s : Attrs α) (skip : List String) (J : Attrs α → α) (opt : Optimiser α) :
+    FitRes α :=
+  let free := paraNames (sortNames defaults) skip
+  fit defaults s skip none none (opt (objective J s free) (free.map s))
+
+/-- keys of `default_parameter` of the seven classes, in the order of the source text -/
+def paramNames : Kind → List String
+  | .identity | .logNormal => []
+  | .boxCoxShift => ["shift", "lmbda"]
+  | _ => ["lmbda"]
+
+/-- the `Par` read off the attributes -/
+def parOf (a : Attrs α) : Par α := ⟨a "lmbda", a "shift"⟩
+
+/-- `_neg_kllf` of class `k` on `data`: minus the kernel log-likelihood at the object's current parameters -/
+def negKLL (k : Kind) (data : List α) (a : Attrs α) : α := -(kernelLL k (parOf a) data)
+
 /-! ### driver -/
 
 def kindOf (s : String) : Except String Kind :=
@@ -210,6 +316,21 @@ def getPar (j : Json) : Except String (Kind × Par Float) := do
   let l ← getFloat j "lmbda"
   let s ← getFloat j "shift"
   return (k, ⟨l, s⟩)
+
+def getStrs (j : Json) (k : String) : Except String (List String) := do
+  let v ← j.getObjVal? k
+  let a ← v.getArr?
+  let r ← a.mapM Json.getStr?
+  return r.toList
+
+def getFloats2 (j : Json) (k : String) : Except String (List (List Float)) := do
+  let v ← j.getObjVal? k
+  let a ← v.getArr?
+  let r ← a.mapM fun (row : Json) => do
+    let b ← row.getArr?
+    let c ← b.mapM jsonToFloat
+    return c.toList
+  return r.toList
 
 /-- line-protocol operations of this model; `none` = not one of mine -/
 def ops (op : String) (j : Json) : Option (Except String Json) :=
@@ -250,6 +371,46 @@ def ops (op : String) (j : Json) : Option (Except String Json) :=
         optF ((applyMNT k p mean[i]! trend[i]! raw[i]!).bind (removeTNM k p mean[i]! trend[i]!))
       let rem := idx.map fun i => optF (removeTNM k p mean[i]! trend[i]! raw[i]!)
       return Json.arr #[fl app, fl back, fl rem])
+  | "norm_fit" => some (do
+      -- bookkeeping of Normalizer.__init__ / fit with a scripted optimiser
+      let names ← getStrs j "names"
+      let vals ← getFloats j "values"
+      if names.length != vals.size then throw "norm_fit: names/values" else
+      let skip ← getStrs j "skip"
+      let trials ← getFloats2 j "trials"
+      let x ← getFloats j "x"
+      let given : List (String × Float) := match (getStrs j "given_names", getFloats j "given_values") with
+        | (.ok gn, .ok gv) => gn.zip gv.toList
+        | _ => []
+      let s : Attrs Float := initAttrs (names.zip vals.toList) given
+      let ub : Option (Float × Float) := match getFloats j "bracket" with
+        | .ok b => if b.size == 2 then some (b[0]!, b[1]!) else none
+        | _ => none
+      let ux : Option (List Float) := match getFloats j "x0" with
+        | .ok b => some b.toList
+        | _ => none
+      let r := fit names s skip ub ux ⟨trials, x.toList⟩
+      let all := sortNames names
+      let obj : List Float ← match getStr j "kind" with
+        | .ok ks => do
+          let k ← kindOf ks
+          let data ← getFloats j "data"
+          let trend ← getFloats j "trend"
+          if trend.size != data.size then throw "norm_fit: trend size" else
+          let d := (List.range data.size).map fun i => data[i]! - trend[i]!
+          pure (r.seen.map fun a => negKLL k d a)
+        | _ => pure []
+      return Json.mkObj [
+        ("all", Json.arr (all.map Json.str).toArray),
+        ("attrs", fl (all.map r.attrs)),
+        ("ret_names", Json.arr (r.ret.map fun nv => Json.str nv.1).toArray),
+        ("ret_values", fl (r.ret.map fun nv => nv.2)),
+        ("warned", Json.bool r.warned),
+        ("route", Json.num (JsonNumber.fromNat r.route)),
+        ("bracket", match r.bracket with | some (a, b) => fl [a, b] | none => Json.null),
+        ("x0", match r.x0 with | some v => fl v | none => Json.null),
+        ("seen", fl2 (r.seen.map fun a => all.map a)),
+        ("objective", fl obj)])
   | _ => none
 
 end GSV.Model.Norm
